@@ -166,7 +166,10 @@ Inductive case :=
   (* transformer applied by the whole program ([file f = SOURCE -transformed-by T]): the file *)
 | CaseTText (ot : oracle_tables) (mem : N) (T : ttrans) (e : tsource) (obs_text : text)
   (* matcher applied to a source: the verdict *)
-| CaseM (ot : oracle_tables) (mem : N) (m : smatcher) (e : tsource) (obs : bool).
+| CaseM (ot : oracle_tables) (mem : N) (m : smatcher) (e : tsource) (obs : bool)
+  (* ONE matcher applied to SEVERAL files by the whole program
+     ([dir-contents D : every|any file : contents M]): the aggregated verdict *)
+| CaseMFiles (ot : oracle_tables) (mem : N) (q : quant) (m : smatcher) (files : list text) (obs : bool).
 
 Definition m_eval_t ot mem := eval_t (tab_search ot) (tab_full ot) (tab_sub ot) (tab_upper ot) (tab_lower ot) py_is_space mem.
 Definition m_eval_m ot mem := eval_m (tab_search ot) (tab_full ot) (tab_sub ot) (tab_upper ot) (tab_lower ot) py_is_space mem.
@@ -180,7 +183,7 @@ Definition model_flags (c : case) : bool * bool :=
   match c with
   | CaseT ot mem T e _ | CaseTText ot mem T e _ =>
       let s := m_eval_t ot mem T (m_eval_src ot mem e) in (s_ext s, s_fext s)
-  | CaseM _ _ _ _ _ => (false, false)
+  | CaseM _ _ _ _ _ | CaseMFiles _ _ _ _ _ _ => (false, false)
   end.
 
 Definition check_flags (cf : case * (bool * bool)) : bool * bool :=
@@ -199,4 +202,8 @@ Definition check_case (c : case) : bool * bool :=
   | CaseM ot mem m e obs =>
       ( Bool.eqb (m_eval_m ot mem m (m_eval_src ot mem e)) obs,
         Bool.eqb (s_sem_m ot m (s_sem_src ot e)) obs )
+  | CaseMFiles ot mem q m files obs =>
+      let agg (p : text -> bool) := match q with QAll => forallb p files | QAny => existsb p files end in
+      ( Bool.eqb (agg (fun t => m_eval_m ot mem m (file_src t))) obs,
+        Bool.eqb (agg (fun t => s_sem_m ot m t)) obs )
   end.
